@@ -249,8 +249,14 @@ func genTTProgram(t *rapid.T) ttProgram {
 	for i := 0; i < nkeys; i++ {
 		// few slots, several hashes per slot: low bits choose the slot, high bits distinguish
 		slot := uint64(rapid.IntRange(0, int(min(slots, 4))-1).Draw(t, "slot"))
-		hi := uint64(rapid.IntRange(1, 5).Draw(t, "hi"))
-		c.Keys = append(c.Keys, hi<<40|slot)
+		// (hi 0, slot 0 is the hash 0: a legitimate key, and the one an empty slot might be mistaken for)
+		hi := uint64(rapid.IntRange(0, 5).Draw(t, "hi"))
+		shift := rapid.SampledFrom([]int{40, 40, 32, 63, 20}).Draw(t, "shift")
+		k := hi<<shift | slot
+		if shift == 20 && slots > 1<<20 {
+			k = hi<<40 | slot
+		}
+		c.Keys = append(c.Keys, k)
 	}
 	nthreads := rapid.IntRange(2, 16).Draw(t, "threads")
 	for w := 0; w < nthreads; w++ {
